@@ -836,6 +836,6 @@ func Run() int {
 		r.Assumef("WARNING vacuity: outcomes %v", t.outcomes)
 	}
 	r.Assumef("token positions: columns count bytes; the end-of-input marker's position is not compared (the property only speaks of a token's first character)")
-	r.Assumef("unspecified inputs (skipped, counted per reason in coverage.outcomes): unterminated block comment, lone CR, floats, '-' glued to a digit after an operand (owned by C12), lone '&', non-UTF-8 bytes, Unicode letters outside strings, physical newline or invalid escape in an interpreted string, digits glued to letters")
+	r.Assumef("unspecified inputs (skipped, counted per reason in coverage.outcomes): unterminated block comment, lone CR, floats, '-' glued to a digit after an operand (owned by C12), lone '&', non-UTF-8 bytes, Unicode letters outside strings, physical newline or invalid escape in an interpreted string, digits glued to letters, a byte order mark as the very first character")
 	return r.Finish()
 }
